@@ -211,6 +211,51 @@ def check(chk):
         chk.judge(not leaks, 'C12.created', f, '%s: connection from connection_factory is published or closed on every path' % q,
                   'when %s.set_keyspace_blocking raises, the freshly opened connection is neither stored nor closed (it leaks until garbage collected)' % var)
 
+    # ---- the constructors: a pool whose constructor raises is never registered with the session, so it has to close what it opened itself
+    chk.rule('C12.ctor', 'HostConnection.__init__ / HostConnectionPool.__init__: an exception that leaves the constructor after a connection was opened passes through a close of every connection opened so far')
+    for cls in POOLS:
+        f = pool.func('%s.__init__' % cls)
+        if not factory_calls(f):
+            raise AnalysisError('%s.__init__: connection_factory call not found' % cls)
+
+        def may_raise_c(n):
+            for x in walk_no_nested(n):
+                if isinstance(x, ast.Call) and (src(x.func).endswith('cluster.connection_factory') or src(x.func).endswith('.set_keyspace_blocking')):
+                    return ['Exception']
+            return []
+        g = CFG(f, may_raise=may_raise_c, exc_hier=hier)
+
+        def closes_all(node):
+            # self._connection.close()   or the head of   for c in self._connections: c.close()
+            if node.kind == 'stmt' and node.ast is not None and any(isinstance(x, ast.Call) and src(x.func) == 'self._connection.close' for x in walk_no_nested(node.ast)):
+                return True
+            if node.kind == 'for_iter' and src(node.ast.iter) in ('self._connections', 'list(self._connections)', 'self._connections[:]') and isinstance(node.ast.target, ast.Name) and \
+                    any(isinstance(x, ast.Call) and src(x.func) == '%s.close' % node.ast.target.id for st_ in node.ast.body for x in ast.walk(st_)):
+                return True
+            return False
+
+        def step_c(node, c):
+            if node.ast is not None and node.kind == 'stmt' and any(isinstance(x, ast.Call) and src(x.func).endswith('cluster.connection_factory') for x in walk_no_nested(node.ast)):
+                return 'opened'
+            if closes_all(node) and c == 'opened':
+                return 'closed'
+            return c
+
+        # the state before a factory call that raises is the state that reaches the handler: run the flow with the step applied on normal edges only
+        def step_c2(node, c):
+            return c
+
+        def edge_c2(node, succ, lab, c):
+            if lab is not None and lab[0] == 'exc':
+                return c                      # the raising statement had no effect
+            return step_c(node, c)
+        flc = Flow(g, 'none', step_c2, edge=edge_c2)
+        leaks = [st for st in flc.at(g.raise_exit) if st[1] == 'opened']
+        chk.judge(not leaks, 'C12.ctor', f, '%s.__init__: what was opened is closed before an exception leaves the constructor' % cls,
+                  'set_keyspace_blocking (or a later connection_factory call) can raise out of the constructor with connections open: the session never registers this pool, so neither its '
+                  'shutdown nor the session\'s closes them, and every reconnection attempt to the host leaks another one%s'
+                  % ((' (%s)' % ' | '.join(flc.witness(g.raise_exit, leaks[0])[-5:])) if leaks else ''))
+
     # ---- publication re-checks shutdown under the lock
     for q, attr in (('HostConnection._replace', '_connection'), ('HostConnectionPool._add_conn_if_under_max', '_connections')):
         f = pool.func(q)
